@@ -792,8 +792,8 @@ fn render_struct_line(
             quote!(#idnt: #right_side,)
         },
         (Named(ident), Some(attr), Kind::FromOwned | Kind::FromRef, TypeHint::Tuple) => {
-            let or = Named(format_ident!("f{}", f.idx));
-            let right_side = attr.get_stuff(&obj, get_field_path, ctx, || if ctx.impl_type.is_variant() { &or } else { &f.member });
+            let or = if ctx.impl_type.is_variant() { Named(format_ident!("f{}", f.idx)) } else { Unnamed(Index { index: f.idx as u32, span: Span::call_site() }) };
+            let right_side = attr.get_stuff(&obj, get_field_path, ctx, || &or);
             quote!(#ident: #right_side,)
         },
         (Unnamed(index), Some(attr), Kind::OwnedInto | Kind::RefInto, TypeHint::Tuple | TypeHint::Unspecified) => {
